@@ -26,7 +26,7 @@ LOADS = [1, 7, [2, 3], 1000]
 
 
 def budget_s(tier):
-    return 300 if tier == "quick" else 7200
+    return 1200 if tier == "quick" else 10800
 
 
 LEVELS_QUICK = [
